@@ -539,7 +539,7 @@ def gen_affine(rng, allow_k3=False):
             f_ranks.append(d["s"]); f_acc.append(d["s"].lower())
         i_acc.append(" + ".join(terms))
     # a second output variable inside the first affine access: O[p2, q] = I[p2 + q + s] * F[s]
-    two_out = ndim == 1 and dims[0]["s"] and not chan_c and not chan_m and rng.random() < 0.12
+    two_out = ndim == 1 and dims[0]["s"] and not chan_c and not chan_m and rng.random() < 0.2
     if two_out:
         o_ranks.insert(0, "P"); o_acc.insert(0, "p")
         i_acc[-1] = "p + " + i_acc[-1]
@@ -551,7 +551,7 @@ def gen_affine(rng, allow_k3=False):
         if rng.random() < 0.5:
             facs.reverse()
     # a third operand living on the (possibly partitioned) output rank: I[q+s] * B[q] * F[s]
-    third = any_filter and not two_out and rng.random() < 0.15
+    third = any_filter and not two_out and rng.random() < 0.2
     if third:
         decl_items.append(("B", [dims[0]["q"]]))
         facs.insert(rng.randrange(len(facs) + 1), "B[%s]" % dims[0]["q"].lower())
